@@ -117,29 +117,95 @@ fn accepted(spec: &FileSpec, name: &str, filter: &InfixFilter, suffix: Option<&s
     n == 1
 }
 
-// @verif prop=C14 tier=quick timeout=900 bounds=name"b<X>r<D>0001.l",X,D-any-printable-ASCII,Numbers-scheme
-// A directory entry b<X>r<D>0001.l is accepted as a rotated file of the family (basename b, suffix l, Numbers) only if X is the separator '_' and D is a digit: near misses with another byte in the separator position are foreign files and must not be listed (and hence never cleaned up).
+// Symbolic name bytes did not finish (std's path / lossy-UTF-8 machinery over symbolic content:
+// > 6 GB after 10 min); the names are a concrete menu of family members and near misses, decided
+// against the documented pattern [fixed part]_<infix>[.restart-NNNN].<suffix>. CBMC executes the
+// real filter on each and reports any panic (slice / char-boundary) on the way.
+fn expect(spec: &FileSpec, name: &str, suffix: Option<&str>, want: bool) {
+    let acc = accepted(spec, name, &infix_filter_numbers(), suffix);
+    assert!(acc == want);
+}
+// @verif prop=C14,C16 tier=quick timeout=900 bounds=spec(basename-b,suffix-l),Numbers-filter,menu-of-9-names
+// Family members are listed, near misses are not: other suffix, no suffix at all, longer basename sharing the prefix, missing infix, current-file infix (Numbers filter), infix-like fragment inside a longer name.
 #[kani::proof]
-#[kani::unwind(14)]
+#[kani::unwind(30)]
 #[kani::stub(verif_support::reexp::catch_unwind, verif_support::stub_cu)]
-fn c14_filter_separator_and_digit() {
+fn c14_filter_menu_basename() {
     vs::link_all();
-    let x: u8 = kani::any();
-    let d: u8 = kani::any();
-    kani::assume(x >= 0x21 && x <= 0x7e && x != b'/' && x != b'.');
-    kani::assume(d >= 0x21 && d <= 0x7e && d != b'/' && d != b'.');
-    let nb = [b'b', x, b'r', d, b'0', b'0', b'0', b'1', b'.', b'l'];
-    let name = vs::str_from(&nb);
     let spec = family_spec();
-    let acc = accepted(&spec, name, &infix_filter_numbers(), Some("l"));
-    let want = x == b'_' && d >= b'0' && d <= b'9';
-    if acc {
-        assert!(want);
-    }
-    if want {
-        assert!(acc);
-    }
-    kani::cover!(acc, "accepted");
-    kani::cover!(!acc && x == b'_', "rejected because of the infix");
+    expect(&spec, "b_r00001.l", Some("l"), true);
+    expect(&spec, "b_r00001.restart-0000.l", Some("l"), true);
+    expect(&spec, "b_r00001.x", Some("l"), false);
+    expect(&spec, "b_r00001", Some("l"), false);
+    expect(&spec, "bb_r00001.l", Some("l"), false);
+    expect(&spec, "b.l", Some("l"), false);
+    expect(&spec, "b_.l", Some("l"), false);
+    expect(&spec, "b_rCURRENT.l", Some("l"), false);
+    expect(&spec, "b_x_r00001.l", Some("l"), false);
+    kani::cover!(true, "menu executed");
+    std::mem::forget(spec);
+}
+// @verif prop=C14,C16 tier=quick timeout=900 bounds=spec(no-basename,discriminant-dc,suffix-l),menu-of-5-names
+// Without a basename but with a discriminant the family's files are still recognised (the infix follows the fixed part "dc_"), foreign ones are not.
+#[kani::proof]
+#[kani::unwind(16)]
+#[kani::stub(verif_support::reexp::catch_unwind, verif_support::stub_cu)]
+fn c14_filter_menu_discriminant_only() {
+    vs::link_all();
+    let spec = mk_spec("", Some("dc"), Some("l"));
+    expect(&spec, "dc_r00001.l", Some("l"), true);
+    expect(&spec, "dc_r00001.l.gz", Some("gz"), true);
+    expect(&spec, "dc_r00001", Some("l"), false);
+    expect(&spec, "dcx_r00001.l", Some("l"), false);
+    expect(&spec, "dc.l", Some("l"), false);
+    kani::cover!(true, "menu executed");
+    std::mem::forget(spec);
+}
+// @verif prop=C14,C16 tier=quick timeout=900 bounds=spec(no-name-parts,suffix-l),menu-of-4-names
+// With no fixed name part at all the infix is the whole stem.
+#[kani::proof]
+#[kani::unwind(16)]
+#[kani::stub(verif_support::reexp::catch_unwind, verif_support::stub_cu)]
+fn c14_filter_menu_infix_only() {
+    vs::link_all();
+    let spec = mk_spec("", None, Some("l"));
+    expect(&spec, "r00001.l", Some("l"), true);
+    expect(&spec, "r00001", Some("l"), false);
+    expect(&spec, "xr00001.l", Some("l"), false);
+    expect(&spec, "r.l", Some("l"), false);
+    kani::cover!(true, "menu executed");
+    std::mem::forget(spec);
+}
+// @verif prop=C14 tier=quick timeout=900 replay=foreign_listing bounds=spec(basename-b,suffix-l),name"bXr00001.l"
+// (repaired defect, kept as a regression check) a foreign file with another byte in the separator position (bXr00001.l) must not be listed.
+#[kani::proof]
+#[kani::unwind(16)]
+#[kani::stub(verif_support::reexp::catch_unwind, verif_support::stub_cu)]
+fn c14_filter_separator_not_checked() {
+    vs::link_all();
+    let spec = family_spec();
+    expect(&spec, "bXr00001.l", Some("l"), false);
+    std::mem::forget(spec);
+}
+// @verif prop=C14 tier=quick timeout=900 replay=foreign_listing bounds=spec(basename-b,suffix-l),name"b_r00001.x.l" expect=fail kf=C14-tail
+// KNOWN-FINDING twin: a foreign file with an arbitrary extra dotted part after the infix (b_r00001.x.l) must not be listed.
+#[kani::proof]
+#[kani::unwind(16)]
+#[kani::stub(verif_support::reexp::catch_unwind, verif_support::stub_cu)]
+fn c14_filter_tail_ignored() {
+    vs::link_all();
+    let spec = family_spec();
+    expect(&spec, "b_r00001.x.l", Some("l"), false);
+    std::mem::forget(spec);
+}
+// @verif prop=C10,C14 tier=quick timeout=900 replay=foreign_listing bounds=spec(basename-b,suffix-l),name"b\u{e9}r01.l"
+// (repaired defect, kept as a regression check) a foreign file whose name has a multi-byte character where the separator would be (b\u{e9}r01.l) must not make the listing panic.
+#[kani::proof]
+#[kani::unwind(16)]
+#[kani::stub(verif_support::reexp::catch_unwind, verif_support::stub_cu)]
+fn c10_filter_multibyte_boundary() {
+    vs::link_all();
+    let spec = family_spec();
+    expect(&spec, "b\u{e9}r01.l", Some("l"), false);
     std::mem::forget(spec);
 }
